@@ -12,12 +12,12 @@ CHECKS = {
    design="3/C16"),
  "C02": dict(
    technique="explicit-state BFS over coupon subsets with arrival merging + stateless all-orders DFS + deviation-bounded enumeration on full-promotion runs, on three real sketches in lock-step against a per-slot-max reference",
-   text="Every subset (all arrival orders merged and cross-compared) of 12-14 adversarial coupons is applied to real Hll4/Hll6/Hll8 sketches from up to 7 start states per scope (lg_k 4,7,8,9), every ordered sequence to depth 4-6 without merging, and every single (lg_k 4: double) deviation on three default runs per lg_k (4..10 quick, ..21 thorough); after every step the hook dump must equal the reference (coupon set / per-slot maximum, Array4 cur_min/num_at_cur_min/aux bookkeeping, exact kxq), duplicates must be no-ops and the three types must report bit-identical estimates and bounds.",
+   text="Every subset (all arrival orders merged and cross-compared) of 12-14 adversarial coupons is applied to real Hll4/Hll6/Hll8 sketches from up to 7 start states per scope (lg_k 4,7,8,9), every ordered sequence to depth 4-6 without merging, and every single (lg_k 4: double) deviation on three default runs per lg_k (4..10 quick, ..21 thorough); exception-subset family: every subset of 4..=6 of the 16 slots at lg_k 4 and every 4-subset at lg_k 5 (thorough: <=9, <=5, 4 at lg_k 6), two orders, cur_min 0/1: made exceptions, raised again, cur_min shifted with the aux map live, raised again; after every step the hook dump must equal the reference (coupon set / per-slot maximum, Array4 cur_min/num_at_cur_min/aux bookkeeping, exact kxq), duplicates must be no-ops and the three types must report bit-identical estimates and bounds.",
    note="Coupons are injected through the add-only hook (values 1..=63); C16 ties items to coupons. Alphabets and default runs are fixed and listed in the evidence; large lg_k only as default runs.",
    design="3/C02"),
  "C05": dict(
    technique="deviation-bounded exhaustive enumeration over complete sketch lives (all pairs, window offsets 0..56) + explicit-state BFS around every flavor change/window move, real sketch vs bit-matrix reference",
-   text="Four default orders of ALL k*64 pairs (up to the cap just below a 57th window move) are run on the real sketch with every single deviation (pairs at the window edges, early zone, late zone, col 63, duplicates) inserted at every listed position (lg_k=4: every 8th/1st position quick/thorough, double deviations on a grid; lg_k 5..8 quick, ..12 + spot 21/26 thorough), and a BFS to depth 4-5 over 12 window-straddling pairs starts from every prefix within 3 coupons of a flavor change or window move. After every step: num_coupons==popcount, hook matrix==model, validate(), offset/flavor from thresholds, columns below first_interesting_column all ones, kxp==exact unset-probability mass, hip==sum k/kxp, duplicates are no-ops.",
+   text="Four crafted default orders of ALL k*64 pairs (up to the cap just below a 57th window move) and one hashed-items order (96*k items through the reference hash) are run on the real sketch with every single deviation (pairs at the window edges, early zone, late zone, col 63, duplicates) inserted at every listed position, plus the delayed-pair family (every grid pair moved later by k, 4k, 16k positions or to the end) (lg_k=4: every 8th/1st position quick/thorough, double deviations on a grid; lg_k 5..8 quick, ..12 + spot 21/26 thorough), and a BFS to depth 4-5 over 12 window-straddling pairs starts from every prefix within 3 coupons of a flavor change or window move. After every step: num_coupons==popcount, hook matrix==model, validate(), offset/flavor from thresholds, columns below first_interesting_column all ones, kxp==exact unset-probability mass, hip==sum k/kxp, duplicates are no-ops.",
    note="Pairs are injected through the add-only hook; model precondition: no new pair at C=ceil(59.375K)-1. kxp/hip are compared with exact 128-bit arithmetic within an f64-rounding error bound.",
    design="3/C05"),
  "C04": dict(
@@ -26,8 +26,8 @@ CHECKS = {
    note="Hashes are offered through the add-only hook (screened like update); one default run per configuration uses the public update with the reference MurmurHash as the model. BFS merges on (retained set, theta, table size) irrespective of table layout.",
    design="3/C04"),
  "C03": dict(
-   technique="exhaustive depth-2 product over a 167-member sketch pool x lg_max_k + explicit-state BFS (merged by reference content, arrivals compared) on the real HllUnion against a folded register-wise-max reference",
-   text="Pool: lg_k {4,5,8,10,12} x {Hll4,Hll6,Hll8} x {empty, list, set, dense array, array with exceptions (63/31/32/aux)} x {fresh, serialize round trip, out-of-order via a previous union, out-of-order via a foreign (spec-encoded) image}. Every ordered pair of pool members is fed to a real HllUnion for every lg_max_k in {4,7,8,10,12,21}; a BFS to depth 5 (7 thorough) over one member per (gadget mode x source mode x lg relation) cell plus update_value x3 and reset explores orders and repetitions. After every step: lg_config_k == min(lg_max_k, array inputs), to_sketch(Hll4|6|8) content == folded register-wise max / coupon union, converted sketches internally consistent, estimate and six bounds bit-identical across the three requested types and equal to the union's own accessors, estimate > 0 for non-empty inputs, bounds ordered; merged arrivals must have identical content.",
+   technique="exhaustive depth-2 (thorough: depth-3) product over a 175-member sketch pool x lg_max_k + explicit-state BFS (merged by reference content, arrivals compared) on the real HllUnion against a folded register-wise-max reference",
+   text="Pool: lg_k {4,5,8,10,12} x {Hll4,Hll6,Hll8} x {empty, list, set, largest set the lg_k allows, dense array, array with exceptions (63/31/32/aux)} x {fresh, serialize round trip, out-of-order via a previous union, out-of-order via a foreign (spec-encoded) image}. Every ordered pair (thorough: every ordered triple, ~250M union steps) of pool members is fed to a real HllUnion for every lg_max_k in {4,7,8,10,12,21}; a BFS to depth 5 (7 thorough) over one member per (gadget mode x source mode x lg relation) cell plus update_value x3 and reset explores orders and repetitions. After every step: lg_config_k == min(lg_max_k, array inputs), to_sketch(Hll4|6|8) content == folded register-wise max / coupon union, converted sketches internally consistent, estimate and six bounds bit-identical across the three requested types and equal to the union's own accessors, estimate > 0 for non-empty inputs, bounds ordered; merged arrivals must have identical content.",
    note="Pool contents are built through the coupon hook so the reference knows them exactly; thorough adds lg_k 6,7,9,14.",
    design="3/C03"),
  "C06": dict(
@@ -47,8 +47,8 @@ CHECKS = {
    design="3/C12"),
  "C13": dict(
    technique="finite-domain enumeration of format variants x abstract states through an independent spec encoder, real deserialize + state/behaviour comparison",
-   text="The complete product of the format variants Java/C++ writers use and a family of small abstract states is encoded by the harness's own encoder and fed to the real readers (~54k images quick): HLL lg_k {4,5,8,10} x 3 types x {list of every length 0..7, set of every size 8..24/25..48, arrays: 5 base patterns x 16 exception subsets x 4 exception values} x compact/updatable coupon tables and aux tables (two table sizes) x compact flag in array mode x out-of-order flag x extra flag bits; Theta serial versions 1-4 x {empty, single, exact, estimating} x ordered/unordered x single-item flag x seeds (+ wrong seed rejected); Bloom exact/dirty counts; Count-Min u64/i64 readers; Frequent Items i64/String x preLongs high bits x empty-flag variants; CPC uncompressed flag rejected. Oracle: Ok, hook dump / accessors equal the encoded state, estimates as the state requires (HIP value in order, composite when out of order), further updates and unions behave as the registers require, re-serialization decodes to the same state.",
-   note="Encoders are my transcription of the Java/C++ writers (DESIGN Appendix A). t-digest float/double/reference encodings are attached with the t-digest codec (see evidence counters).",
+   text="The complete product of the format variants Java/C++ writers use and a family of small abstract states is encoded by the harness's own encoder and fed to the real readers (~54k images quick): HLL lg_k {4,5,8,10} x 3 types x {list of every length 0..7, set of every size 8..24/25..48, arrays: 5 base patterns x 16 exception subsets x 4 exception values} x compact/updatable coupon tables and aux tables (two table sizes) x compact flag in array mode x out-of-order flag x extra flag bits; Theta serial versions 1-4 x {empty, single, exact, estimating} x ordered/unordered x single-item flag x seeds (+ wrong seed rejected); serial version 4 for EVERY delta bit width 1..=63 x entry counts 1..=17,24,25,255..257 (thorough: ..33, 63..65, 65535..65537) x 3 placements of the widest delta x 2 fill patterns x exact/estimating; Bloom exact/dirty counts; Count-Min u64/i64 readers; Frequent Items i64/String x preLongs high bits x empty-flag variants; CPC uncompressed flag rejected. Oracle: Ok, hook dump / accessors equal the encoded state, estimates as the state requires (HIP value in order, composite when out of order), further updates and unions behave as the registers require, re-serialization decodes to the same state.",
+   note="Encoders are my transcription of the Java/C++ writers (DESIGN Appendix A). t-digest float/double/reference encodings are attached with the t-digest codec (see evidence counters), including heavy first/last-centroid lists on a 65-point grid. Thorough adds HLL lg_k 6,7,9,11,12,13,16,21 and set tables up to the promotion size.",
    design="3/C13"),
  "C08": dict(
    technique="finite-domain enumeration of the configuration product x explicit-state BFS (key = table bytes + total + truths) on the real CountMinSketch<T> against an exact model table",
@@ -57,7 +57,7 @@ CHECKS = {
    design="3/C08"),
  "C09": dict(
    technique="finite-domain enumeration of the configuration product x explicit-state BFS (key = bit array + obligation set) on the real BloomFilter against a reference bit model",
-   text="For the complete product 12 sizes {1,2,63,64,65,100,127,128,129,1000,4096,65536} x num_hashes 1..16 x seeds {9001,0,u64::MAX} (576 configurations) a BFS to depth 4 (6-7 thorough) over insert / contains_and_insert of 4 items of three kinds (u64, &str, byte slice), union/intersect with a pool of 4 filters, invert, reset, serialize->deserialize. In every state the bit array parsed from serialize() equals the reference model (positions ((h0+i*h1)>>1) mod capacity with reference XXH64), bits_used == popcount, every obligated item is contained (direct inserts, either union operand, both intersect operands), contains_and_insert returns the previous contains, is_empty iff no bit set; builder formulas over a grid and the deterministic FPP clause (complete disjoint query domain of 200000 items for 3 (n,p) points).",
+   text="For the complete product 12 sizes {1,2,63,64,65,100,127,128,129,1000,4096,65536} x num_hashes 1..16 x seeds {9001,0,u64::MAX} (576 configurations) a BFS to depth 4 (6-7 thorough) over insert / contains_and_insert of 4 items of three kinds (u64, &str, byte slice) plus the item-shape enumeration (strings and slices of every length 0..=70, tuples, 128-bit integers: every write pattern of the hasher), union/intersect with a pool of 4 filters, invert, reset, serialize->deserialize. In every state the bit array parsed from serialize() equals the reference model (positions ((h0+i*h1)>>1) mod capacity with reference XXH64), bits_used == popcount, every obligated item is contained (direct inserts, either union operand, both intersect operands), contains_and_insert returns the previous contains, is_empty iff no bit set; builder formulas over a grid and the deterministic FPP clause (complete disjoint query domain of 200000 items for 3 (n,p) points).",
    note="The FPP clause is decided only as a complete count over a fixed finite query domain (necessary condition).",
    design="3/C09"),
  "C17": dict(
@@ -67,17 +67,17 @@ CHECKS = {
    design="3/C17"),
  "C18": dict(
    technique="size-formula observer on the family explorers (every visited state) + exhaustive measurement grid along long hashed streams",
-   text="In every state of the reduced-bound C02/C04/C07/C08/C09 explorations the image length must equal the formula its mode and configuration dictate (HLL 8+4c / 12+4c / 40+{k/2,3k/4+1,k}+4*aux with c and aux from the hook dump; theta <= 15/16*2k retained, image = 8*(preLongs+n), v4 <= v3; Bloom and Count-Min fixed by configuration; Frequent Items num_active <= maximum_map_capacity). Long runs: 4 hashed streams (distinct, 16 repeated, ascending theta hash, ascending HLL value) of 2^18 (2^22) items through the public update, HLL lg_k {4,8,12,(21)} x 3 types and theta lg_k {5,8,12} (incl. trim <= k) measured at every power-of-two prefix; CPC lg_k 4..12(14) x 4 seeds at every 1/8-octave prefix: exceedances of max_serialized_bytes are counted and must stay <= 0.1%.",
+   text="In every state of the reduced-bound C02/C03 (every union result in all three target types)/C04/C07/C08/C09 explorations the image length must equal the formula its mode and configuration dictate (HLL 8+4c / 12+4c / 40+{k/2,3k/4+1,k}+4*aux with c and aux from the hook dump, list mode <= 7 coupons and set mode <= 3/4*2^(lg_k-3) coupons (the promotion sizes); theta <= 15/16*2k retained, image = 8*(preLongs+n), v4 <= v3; Bloom and Count-Min fixed by configuration; Frequent Items num_active <= maximum_map_capacity, also for requested sizes 1,2,4 which the constructor clamps to 8). Long runs: 4 hashed streams (distinct, 16 repeated, ascending theta hash, ascending HLL value) of 2^18 (2^22) items through the public update, HLL lg_k {4,8,12,(21)} x 3 types and theta lg_k {5,8,12} (incl. trim <= k) measured at every power-of-two prefix; CPC lg_k 4..12(14) x 4 seeds at every 1/8-octave prefix: exceedances of max_serialized_bytes are counted and must stay <= 0.1%.",
    note="The CPC clause is probabilistic: decided only as a complete count over the stated hashed-stream grid. t-digest size is C15.",
    design="3/C18"),
  "C01": dict(
    technique="ordering/nesting/exactness observer on the family explorers + finite-domain enumeration of the estimators' argument spaces + exhaustive one-step expectation (HIP martingale identity) over ALL next coupons",
-   text="(1) lb3<=lb2<=lb1<=est<=ub1<=ub2<=ub3, finite, non-negative, exact-mode theta exact, coverage not collapsing after screened updates, non-empty union estimate > 0: in every state of the reduced-bound C02..C06 explorations. (2) Whole argument spaces: HLL coupon estimator for every length up to the set capacity; HLL relative-error table lg_k 4..=21 x HIP/non-HIP x lb/ub x 3 std devs (sign, monotone in std devs, HIP < non-HIP, smooth ~1/sqrt(2) per lg_k); HLL composite estimator for ALL multisets of 16 registers (lg_k=4) over a value set; CPC ICON lg_k 4..=26 x every C (small k) / dense grid: est >= C, monotone in C, bounds nested, agreement with the estimator's DEFINITION (bisection of E[C|N]=C) within a per-lg_k tolerance; ICON/HIP confidence tables; theta binomial bounds on a (num_retained x theta) grid. (3) HIP unbiasedness of HLL and CPC as the identity sum_over_all_next_coupons p*(estimate'-estimate) == 1, evaluated with every possible next coupon (k x 63 values / k x 64 columns) in states along the default runs.",
+   text="(1) lb3<=lb2<=lb1<=est<=ub1<=ub2<=ub3, finite, non-negative, exact-mode theta exact, coverage not collapsing after screened updates, non-empty union estimate > 0, estimates and bounds independent of the HLL target type (streamed and union results): in every state of the reduced-bound C02..C06 explorations. (2) Whole argument spaces: HLL coupon estimator for every length up to the set capacity; HLL relative-error table lg_k 4..=21 x HIP/non-HIP x lb/ub x 3 std devs (sign, monotone in std devs, HIP < non-HIP, smooth ~1/sqrt(2) per lg_k); HLL composite estimator for ALL multisets of 16 registers (lg_k=4) over a value set; CPC ICON lg_k 4..=26 x every C (small k) / dense grid: est >= C, monotone in C, bounds nested, agreement with the estimator's DEFINITION (bisection of E[C|N]=C) within a per-lg_k tolerance; ICON/HIP confidence tables; theta binomial bounds on a (num_retained x theta) grid. (3) HIP unbiasedness of HLL and CPC as the identity sum_over_all_next_coupons p*(estimate'-estimate) == 1, evaluated with every possible next coupon (k x 63 values / k x 64 columns) in states along the default runs.",
    note="NOT decided (different family - needs sampling): bias of the composite/ICON/coupon/theta estimators over random item sets, consistency of the spread with the advertised RSE, and the 68/95/99.7% coverage rates. The martingale identity gives exact unbiasedness of the HIP estimators for every cardinality reachable from the checked states.",
    design="3/C01, 4"),
  "C07": dict(
    technique="stateless exhaustive DFS of all op sequences (no state merging: purge depends on table layout) + deviation-bounded enumeration + exhaustive merge trees on the real FrequentItemsSketch against an exact frequency map",
-   text="Map size 8: ALL sequences of <= 8 unit updates over 8 items (two alphabets whose items are brute-forced to share home slots and wrap the table end) and <= 5 ops over a 13-op weighted alphabet, from the empty state and 9 non-initial states; sizes 8..1024 (2048 thorough): six default runs with every single (size 8: double) deviation {update, merge(pool[j]), reset, serialize round trip}; all ordered merge trees of 2 and 3 leaves over a pool of 14 sketches and left-deep chains of 4-5. In every state, for every item of the domain plus never-offered items: lb <= truth <= ub, ub-lb <= maximum_error, estimate in {0} U [lb,ub], total_weight exact, maximum_error <= epsilon*total for single-size histories, NoFalsePositives subset / NoFalseNegatives superset of the true heavy hitters, rows sorted, num_active <= capacity; String items on a smaller scope.",
+   text="Map size 8: ALL sequences of <= 8 unit updates over 8 items (two alphabets whose items are brute-forced to share home slots and wrap the table end) and <= 5 ops over a 13-op weighted alphabet, from the empty state and 9 non-initial states; sizes 8..1024 (2048 thorough): six default runs with every single (size 8: double) deviation {update, merge(pool[j]), reset, serialize round trip}; all ordered merge trees of 2 and 3 leaves over a pool of 14 sketches and left-deep chains of 4-5; the weight lattice: every heavy/light weight assignment over a full map plus the purging item at sizes 16/32/64. In every state, for every item of the domain plus never-offered items: lb <= truth <= ub, ub-lb <= maximum_error, estimate in {0} U [lb,ub], total_weight exact, maximum_error <= epsilon*total for single-size histories, NoFalsePositives subset / NoFalseNegatives superset of the true heavy hitters, rows sorted, num_active <= capacity; String items on a smaller scope.",
    note="An independent table-layout model (validated against serialize() key order at every purge/resize) is used only to name edges (purge-to-empty, back-shift across the array end, ...), not as an oracle.",
    design="3/C07"),
  "C10": dict(
@@ -87,12 +87,12 @@ CHECKS = {
    design="3/C10"),
  "C15": dict(
    technique="deviation-bounded enumeration over stream shapes x every length across buffer boundaries + exhaustive merge trees on the real t-digest against the sorted exact data",
-   text="k {10,20,29,30,50,100,200,500} x 8 stream shapes (sorted, reversed, sawtooth, constant, heavy duplicates, far clusters, geometric magnitudes, alternating extremes), observed at every length <= 4*capacity+2, every buffer boundary +-1 and every power of two up to 2^16 (2^20), with every single deviation {merge(pool), freeze/unfreeze, serialize round trip, duplicate of min/max} on a position grid; left-deep and balanced merge trees over 16 digests and all binary trees with <= 4 leaves over a pool of 6. At each observation (centroids read from serialize() by the harness's own decoder): centroid count <= 2k+30 and <= the derived capacity, image size bounded by k, weights sum to total_weight == number of finite values, means sorted within [min,max], min/max exact, k2 centroid-size limit, weighted mean sum, |rank(v) - true_rank(v)| within the k-scale bound on the v grid and exact-to-one-sample at the extremes.",
+   text="k {10,20,29,30,50,100,200,500} x 8 stream shapes (sorted, reversed, sawtooth, constant, heavy duplicates, far clusters, geometric magnitudes, alternating extremes), observed at every length <= 4*capacity+2, every buffer boundary +-1 and every power of two up to 2^16 (2^20), with every single deviation {merge(pool), freeze/unfreeze, serialize round trip, duplicate of min/max} on a position grid; left-deep and balanced merge trees over 16 digests and all binary trees with <= 4 leaves over a pool of 6; mixed-k merges: 6 receiver preparations x 9 donor k x 4 donor streams x 3 donor preparations, observed right after the merge and after 10 more updates. At each observation (centroids read from serialize() by the harness's own decoder): centroid count <= 2k+30 and <= the derived capacity, image size bounded by k, weights sum to total_weight == number of finite values, means sorted within [min,max], min/max exact, k2 centroid-size limit, weighted mean sum, |rank(v) - true_rank(v)| within the k-scale bound on the v grid and exact-to-one-sample at the extremes.",
    note="The rank-error constant is validated by the same admissibility check as C10; on the geometric-magnitudes stream the bound is raised per grid point to 1.05x the reference's own error (recorded in the evidence notes).",
    design="3/C15"),
  "C14": dict(
    technique="fault enumeration: complete mutation operators around seed images of every family/variant, each case in a worker subprocess under an allocation guard and a watchdog",
-   text="~206k (quick) distinct (entry point, byte string) cases over all 16 deserialize entry points (+CpcWrapper::new): per seed image (76 seeds: every family x variant x mode, own serializer and spec encoder) every truncation, extension by 1..8 bytes, every single-bit flip in the first 64 bytes, 5 byte values at every offset, every named field x boundary values (0,1,2,3,max,max-1,max/2,max/2+1,cur+-1, every power of two, float specials), pairs of named-field mutations, every seed unmodified into every foreign entry point, all inputs of length <= 1 (<= 2 thorough) and valid-header short strings. Verdict must be Ok or Err: never a panic, abort, hang (3 s) or a single allocation above max(8 MiB, 64 x input length); every Ok value is then queried, updated, merged with a fresh partner and with a clone, re-serialized and re-deserialized under catch_unwind.",
+   text="~400k (quick; ~8M thorough) distinct (entry point, byte string) cases over all 16 deserialize entry points (+CpcWrapper::new): per seed image (82 seeds quick: every family x variant x mode, own serializer and spec encoder) every truncation, extension by 1..8 bytes, every single-bit flip in the first 64 bytes, 5 byte values at every offset, every named field x boundary values (0,1,2,3,max,max-1,max/2,max/2+1,cur+-1, every power of two, float specials), pairs of named-field mutations, record duplication (each of the last eight 4-byte / four 8-byte records := another one, exact and with every single bit flipped), every seed unmodified into every foreign entry point, all inputs of length <= 1 (<= 2 thorough) and valid-header short strings. Verdict must be Ok or Err: never a panic, abort, hang (3 s) or a single allocation above max(8 MiB, 64 x input length); every Ok value is then queried, re-serialized and re-deserialized, merged with a clone and with partners of other lg_k / k / map size in both orders, and driven with enough distinct updates for promotions and cur_min shifts (HLL), window moves (CPC), map growth and purges (Frequent Items), buffer flushes in both directions (t-digest), all under catch_unwind. Thorough adds every byte value at each of the first 48 bytes, bit flips at every offset, field value x every truncation, richer pair values and 24/12 trailing records.",
    note="Complete for the stated operators and seeds only. Two known findings (configuration-only EMPTY Bloom / Count-Min images allocate the configured table) are listed in known_findings.json.",
    design="3/C14"),
 }
